@@ -665,9 +665,42 @@ def census(repo, tgs=None, units=None):
             else:
                 why = re.sub(r"^([\w:]+: )+", "", str(why))
                 rows.append({"fn": qn, "line": line_no, "status": "not translatable", "why": why[:200]})
+        # (round 9) dispatch arms translated as methods of their own (target key `arms`): listed per dispatch function,
+        # next to the `fn` items (they are not `fn` items of the source and are not counted as such)
+        arms_out = []
+        for tg in tgs:
+            if tg["rel"] != rel or not tg.get("arms"): continue
+            tu = (units or {}).get(tg["area"])
+            thm_of = {(t[0] or None, t[1]): t[3] for t in tg["fns"]}
+            for (impl_, fn_) in sorted(set((a["impl"], a["fn"]) for a in tg["arms"])):
+                k_ = u.fi.fns.get((impl_, fn_))
+                total = None
+                if isinstance(k_, int):
+                    toks_, j_, d_ = u.fi.toks, k_, 0
+                    while toks_[j_].s != "{": j_ += 1
+                    e_ = j_
+                    while e_ < len(toks_):
+                        if toks_[e_].k != "str":
+                            if toks_[e_].s == "{": d_ += 1
+                            elif toks_[e_].s == "}":
+                                d_ -= 1
+                                if d_ == 0: break
+                        e_ += 1
+                    total = sum(1 for i_ in range(j_, e_ - 3) if toks_[i_].s == "Message" and toks_[i_ + 1].s == "::" and toks_[i_ + 3].s == "("
+                                and any(toks_[q_].s == "=>" for q_ in range(i_ + 4, min(i_ + 12, e_))))
+                lst = []
+                for a in tg["arms"]:
+                    if (a["impl"], a["fn"]) != (impl_, fn_): continue
+                    key_ = (a["impl"], "%s__%s" % (a["fn"], a["arm"]))
+                    ok_ = tu is not None and key_ in tu.fns
+                    lst.append({"arm": a["arm"], "status": ("tied" if thm_of.get(key_) else "translated") if ok_ else "not translatable",
+                                "theorem": thm_of.get(key_), "line": (tu.fns[key_].line if ok_ else 0),
+                                **({} if ok_ else {"why": (tu.failed.get(key_) if tu else "unit missing")})})
+                arms_out.append({"fn": "%s::%s" % (impl_, fn_), "area": tg["area"], "arms_total": total, "arms": lst})
         cnt = lambda st: sum(1 for r in rows if r["status"] == st)
         out[rel] = {"properties": props_of[rel], "fns": len(rows), "tied": cnt("tied"), "translated_untied": cnt("translated"),
-                    "not_translatable": cnt("not translatable"), "declarations": cnt("declaration"), "list": rows}
+                    "not_translatable": cnt("not translatable"), "declarations": cnt("declaration"), "list": rows,
+                    **({"dispatch_arms": arms_out} if arms_out else {})}
     return out
 
 
